@@ -8,7 +8,7 @@ import re
 
 EXTRA_COQ_FILES = ('GenFacts/ConstantsOK.v',)
 RULE = ('seeded random programs: object / header names matching [A-Z0-9_-]+ or not, signed-integer channels, channels in 0/1/2 frames, '
-        'units / equipment type / location inside or outside their enumerations, file-set numbers given or defaulted, with the context '
+        'units / equipment type / location / index type inside or outside their enumerations (incl. variants of standard values differing only by letter case or blanks), file-set numbers given or defaulted, with the context '
         'entered and left at random points (nested), later assignments of units / equipment type / location / index type made in the mode current at that time '
         '(objects created in the other mode). Plus: nested / recursive / raising decorator forms, exception inside the context, decorator form, nested contexts on the real API. '
         'Distinct by program index.')
